@@ -117,6 +117,9 @@ pub fn replay(property: &str, case: &serde_json::Value) -> Result<(), String> {
     if case["kind"].as_str() == Some("des-extra") {
         return c05::replay(case);
     }
+    if case["kind"].as_str() == Some("chunk") {
+        return dump::replay(case);
+    }
     if case["kind"].as_str() == Some("purity") {
         return purity::replay(case);
     }
